@@ -188,7 +188,7 @@ def parse_tla_value(s):
     return val()
 
 
-def run_tlc(workdir, module, cfg, workers=8, timeout=1800, simulate=None, extra=None, heap="8g", coverage=False):
+def run_tlc(workdir, module, cfg, workers=4, timeout=1800, simulate=None, extra=None, heap="4g", coverage=False):
     """Runs TLC in workdir (spec files already staged). Returns dict(out, rc, wall, generated, distinct, ...)."""
     md = os.path.join(workdir, "md_%s_%d" % (cfg.replace(".cfg", ""), os.getpid()))
     cmd = ["java", "-XX:+UseParallelGC", "-Xss512m", "-Xmx" + heap, "-cp", JAR, "tlc2.TLC", "-workers", str(workers),
@@ -231,7 +231,7 @@ def tlc_error_text(out):
     return "\n".join(keep[:30])
 
 
-def model_check(workdir, module, cfg, workers=8, timeout=1800, tfile=None, heap="8g"):
+def model_check(workdir, module, cfg, workers=4, timeout=1800, tfile=None, heap="4g"):
     """MC_ run. Design-level result; when the spec prints "T" lines (transition dump, workers=1) they are saved to tfile."""
     r = run_tlc(workdir, module, cfg, workers=workers, timeout=timeout, heap=heap)
     if not r.get("ok"):
@@ -249,7 +249,7 @@ def model_check(workdir, module, cfg, workers=8, timeout=1800, tfile=None, heap=
     return r
 
 
-def trace_check(workdir, module, cfg, logfile, workers=8, timeout=3600, heap="12g"):
+def trace_check(workdir, module, cfg, logfile, workers=4, timeout=3600, heap="6g"):
     """Trace_ run over a recorded log. Returns dict(fails=[(formula,node)], stats={}, distinct, ...)."""
     # the cfg names the log file through CONSTANT LogFile = "log.ndjson": stage the log under that name
     dst = os.path.join(workdir, "log.ndjson")
